@@ -35,6 +35,10 @@ def worker_closure(facts):
     return None
 
 
+
+def wbm_edges(f):
+    return {(u, v) for u in range(len(f.blocks)) for v in f.succ(u)}
+
 def run(ctx):
     facts = ctx.facts
     with ctx.rule("C08.BUFFER", "per-file buffer cleared, printed exactly once whether the search succeeded or failed; one printer per worker", floor=6, kind="DOM/PASS") as r:
@@ -140,6 +144,44 @@ def run(ctx):
         else:
             r.bad("buffer_writer", "the buffer writer does not emit the file separator between blocks", fn=g, construct="separator")
 
+    with ctx.rule("C08.SEPFIRST", "whatever the single-threaded printer writes first for a file, the file separator comes before it "
+                  "(the buffer writer of the parallel driver puts one before every non-empty block)", floor=2, kind="PASS") as r:
+        SI = "grep_printer::standard::StandardImpl"
+        # the writers of a block's first bytes: the per-line paths (through write_search_prelude) and the binary notice, which
+        # may be all a block consists of
+        pre = facts.fn(SI + "::write_search_prelude")
+        sepfn = [g_ for g_ in (pre,) + tuple(facts.fns[c.path] for c in pre.calls() if c.path in facts.fns and c.path.startswith(SI + "::"))
+                 if any(x.k == "field" and x[3] == "separator_search" for bb, j, st in g_.stmts() if st["k"] == "assign"
+                        for x in walk(ExprBuilder(g_).rvalue(st["rv"])))]
+        if sepfn:
+            r.ok("prelude", "write_search_prelude writes the separator (via %s)" % sepfn[0].path.split("::")[-1], fn=pre, nontrivial=False)
+        else:
+            r.bad("prelude", "anchor-missing: write_search_prelude no longer consults separator_search", fn=pre)
+        wbm = facts.fn(SI + "::write_binary_message")
+        ebw = ExprBuilder(wbm)
+        writes = [c for c in wbm.calls() if c.path.endswith("StandardImpl::write") or c.path.endswith("StandardImpl::write_path_hyperlink")]
+        seps = [c for c in wbm.calls() if c.path in (SI + "::write_search_prelude", SI + "::write_search_separator") or
+                (sepfn and c.path == sepfn[0].path)]
+        cnt = cond_switches(wbm, lambda e: e.k == "bin" and e[1] in ("Eq", "Ne", "Gt") and
+                            any(is_call(x, "grep_printer::counter::CounterWriter::count") for x in walk(e)), ebw)
+        # quit mode writes its warning only after lines of the file were printed (or not at all): only the convert-mode
+        # notice can open a block. Model: quit_byte() = None, nothing written yet for this file.
+        removed = set()
+        for bb, te, fe, e in cnt:
+            removed.add(fe if e[1] == "Eq" else te)
+        sx = Sccp(wbm, call_model=lambda c, a: V("None", None) if c.path.endswith("BinaryDetection::quit_byte") else None,
+                  removed_edges=removed).run([(0, {})])
+        first = [c for c in writes if c.bb in sx.exec_blocks]
+        if not first:
+            r.ok("binary-notice", "the binary notice is never the first thing written", fn=wbm, nontrivial=False)
+        elif seps and not C.all_paths_pass(wbm, [0], [c.bb for c in seps], [c.bb for c in first],
+                                            removed_edges={e_ for e_ in wbm_edges(wbm) if e_ not in sx.exec_edges}):
+            r.ok("binary-notice", "nothing written yet for the file ⇒ the separator is written before the 'binary file matches' notice", fn=wbm)
+        else:
+            r.bad("binary-notice", "write_binary_message writes the 'binary file matches' notice without the file separator when it is "
+                  "the first thing written for the file: with one thread the block of a file that only yields the notice is glued "
+                  "to the previous block, with several threads the buffer writer separates them", fn=wbm, loc=first[0].loc,
+                  construct="separator")
     with ctx.rule("C08.SORT", "sort or a single file ⇒ one thread; parallel dispatch only when threads ≠ 1", floor=6, exhaustive=True,
                   kind="TRUTH/GUARD") as r:
         f = facts.fn(HI + "::from_low_args")
